@@ -182,14 +182,53 @@ def gen_txnshape(repo, out):
     expect("sqlite3.connect(database_file, isolation_level=None)" in isrc, "__init__: connection is not opened in autocommit mode (isolation_level=None)")
     stmts = [_sql_of(n) for n in ast.walk(init) if _is_execute(n)]
     pragmas = [s for s in stmts if s.upper().startswith("PRAGMA")]
-    expect(pragmas[:1] == ["PRAGMA journal_mode=WAL"], f"__init__: first PRAGMA is {pragmas[:1]}")
-    m = [re.fullmatch(r"PRAGMA busy_timeout = (\d+)", p) for p in pragmas[1:2]]
-    expect(m and m[0], f"__init__: busy_timeout PRAGMA changed: {pragmas[1:2]}")
+    # two shapes: (pinned tree) journal_mode=WAL executed once, directly, then busy_timeout; (repaired, 7241d92)
+    # busy_timeout first, then self._enable_wal(cursor), a loop that repeats the switch while sqlite answers
+    # OperationalError (SQLITE_BUSY is returned at once for this statement: the busy handler is not consulted)
+    if pragmas[:1] == ["PRAGMA journal_mode=WAL"]:
+        wal_retried = False
+        m = [re.fullmatch(r"PRAGMA busy_timeout = (\d+)", p) for p in pragmas[1:2]]
+        expect(m and m[0], f"__init__: busy_timeout PRAGMA changed: {pragmas[1:2]}")
+        expect(len(pragmas) == 2, f"__init__: PRAGMAs {pragmas}")
+        n_other = 2
+    else:
+        wal_retried = True
+        m = [re.fullmatch(r"PRAGMA busy_timeout = (\d+)", p) for p in pragmas[:1]]
+        expect(m and m[0], f"__init__: first PRAGMA is {pragmas[:1]}")
+        expect(len(pragmas) == 1, f"__init__: PRAGMAs {pragmas}")
+        calls = [n for n in ast.walk(init) if isinstance(n, ast.Call) and ast.unparse(n.func) == "self._enable_wal"]
+        expect(len(calls) == 1 and [ast.unparse(a) for a in calls[0].args] == ["cursor"] and not calls[0].keywords, "__init__: self._enable_wal(cursor) not called exactly once")
+        # it must come after the busy_timeout PRAGMA and before the first CREATE
+        order = [("wal" if (isinstance(n, ast.Call) and ast.unparse(n.func) == "self._enable_wal") else _sql_of(n)[:6].upper())
+                 for n in ast.walk(init) if (isinstance(n, ast.Call) and ast.unparse(n.func) == "self._enable_wal") or _is_execute(n)]
+        lines = sorted((n.lineno, ("wal" if ast.unparse(n.func) == "self._enable_wal" else _sql_of(n)[:6].upper()))
+                       for n in ast.walk(init) if isinstance(n, ast.Call) and (ast.unparse(n.func) == "self._enable_wal" or _is_execute(n)))
+        kinds = [k for _, k in lines]
+        expect(kinds[:2] == ["PRAGMA", "wal"] and all(k == "CREATE" for k in kinds[2:]), f"__init__: statement order {kinds[:4]}")
+        expect("_enable_wal" in sh.methods, "IDManager._enable_wal missing")
+        ew = sh.methods["_enable_wal"]
+        loops = [n for n in ast.walk(ew) if isinstance(n, ast.While)]
+        expect(len(loops) == 1 and ast.unparse(loops[0].test) == "True", "_enable_wal: not a `while True` retry loop")
+        tries = [n for n in ast.walk(loops[0]) if isinstance(n, ast.Try)]
+        expect(len(tries) == 1 and len(tries[0].handlers) == 1 and not tries[0].orelse and not tries[0].finalbody, "_enable_wal: try/except shape")
+        tr = tries[0]
+        # cursor.execute("PRAGMA journal_mode=WAL").fetchall(): the answer is fetched, so the statement is finished (and
+        # its lock released) before anything else happens
+        expect(len(tr.body) == 2 and isinstance(tr.body[0], ast.Expr) and ast.unparse(tr.body[0].value) == "cursor.execute('PRAGMA journal_mode=WAL').fetchall()"
+               and isinstance(tr.body[1], ast.Return) and tr.body[1].value is None, "_enable_wal: body of the try is not `cursor.execute('PRAGMA journal_mode=WAL').fetchall(); return`")
+        h = tr.handlers[0]
+        expect(h.type is not None and ast.unparse(h.type) == "sqlite3.OperationalError", "_enable_wal: handler does not catch sqlite3.OperationalError")
+        # the handler gives up only through `raise` guarded by the deadline; otherwise it sleeps and the loop repeats
+        raises = [n for n in ast.walk(h) if isinstance(n, ast.Raise)]
+        expect(len(raises) == 1 and raises[0].exc is None, "_enable_wal: handler must re-raise only")
+        expect(len(h.body) == 2 and isinstance(h.body[0], ast.If) and not h.body[0].orelse and ast.unparse(h.body[0].test) == "time.monotonic() >= deadline"
+               and h.body[0].body == [raises[0]] and ast.unparse(h.body[1]) == "time.sleep(0.005)", f"_enable_wal: handler shape changed: {ast.unparse(h)[:120]}")
+        expect(not any(isinstance(n, (ast.Break, ast.Continue)) for n in ast.walk(loops[0])), "_enable_wal: break/continue in the retry loop")
+        n_other = 1
     busy = int(m[0].group(1))
-    expect(len(pragmas) == 2, f"__init__: PRAGMAs {pragmas}")
     creates = [s for s in stmts if s.upper().startswith("CREATE")]
     expect(all(re.match(r"CREATE (TABLE|INDEX) IF NOT EXISTS ", s) for s in creates), "__init__: a CREATE without IF NOT EXISTS")
-    expect(len(creates) + 2 == len(stmts), f"__init__: unexpected statements {[s[:30] for s in stmts if s not in creates and s not in pragmas]}")
+    expect(len(creates) + n_other == len(stmts), f"__init__: unexpected statements {[s[:30] for s in stmts if s not in creates and s not in pragmas]}")
     # the per-space loop: 3 statements per space; then upload table + index
     loop = [n for n in ast.walk(init) if isinstance(n, ast.For) and ast.unparse(n.iter) == "IDSpace.all_values()"]
     expect(len(loop) == 1, "__init__: per-space loop")
@@ -221,5 +260,6 @@ def gen_txnshape(repo, out):
     t += f"Definition reads_in_snapshot : bool := {'true' if snapshot else 'false'}.\n"
     t += f"Definition schema_objects : nat := {objects}%nat.\n"
     t += f"Definition busy_timeout_ms : Z := {busy}%Z.\n"
+    t += f"Definition wal_switch_retried : bool := {'true' if wal_retried else 'false'}.\n"
     t += "(* shapes found: " + ", ".join(f"{k}={v}" for k, v in sorted(shapes.items())) + " *)\n"
     out.add("TxnShapeGen.v", t)
